@@ -68,6 +68,10 @@ func MeasureClockOffsetIP(ctx context.Context, log *slog.Logger,
 				slog.Any("to", remoteAddr),
 				slog.Any("error", e),
 			)
+			// An interleaved request repeats the timestamps of the previous
+			// exchange: sent again unchanged, it would also match a late
+			// response to the attempt that just failed.
+			ntpc.ResetInterleavedMode()
 		}
 	}
 	return
